@@ -9,7 +9,7 @@ class Hostile(concretise.Theme):
     name = "csv-hostile"
     regex = False
     meas = sorted([" m,0", 'a"q"', "a,b\r\nc", "b\nnl", "ba;'x'", "cé\U0001F600"] + ['d%02d,"x"' % i for i in range(90)])
-    strs = sorted([" lead", "a,1", 'a"2"', "b\r\n3", "bü\n4", "c\t;5 "] + ["d%02d\n" % i for i in range(90)])
+    strs = sorted(["", "a,1", 'a"2"', "b\r\n3", "bü\n4", "c\t;5 "] + ["d%02d\n" % i for i in range(90)])
     tagkeys = sorted(["k,1", "_tag_x", 't_"k3"'])
     fieldkeys = sorted(["f\n1", "_field_y", "f_ 3"])
 
